@@ -277,6 +277,11 @@ Section Cfg.
     | _ => if trk e then add_creq e (r_id r) else e
     end.
 
+  (* A manager that has been replaced keeps the Tracking object of the interpreter it was created with, and that one was
+     disabled just before the replacement (Stop / Restart): every tracking.mark_* is silently skipped from then on. *)
+  Definition tk (e : E) (m : mgr) : E := match m with Some _ => set_trk e false | None => e end.
+  Definition note_cancel_m (e : E) (m : mgr) (r : request) : E := match m with Some _ => e | None => note_cancel e r end.
+
   (* _cancel_command(req, finalize=True); exceptions inside are logged and swallowed: when mark_cancelled raises the
      command has been cancel()led but is neither finalized nor is the request marked as done *)
   Definition cancel_request (e : E) (m : mgr) (r : request) : E * mgr :=
@@ -295,8 +300,8 @@ Section Cfg.
               let c' := {| i_name := i_name c; i_id := i_id c; i_pc := i_pc c; i_end := i_end c; i_durarg := i_durarg c;
                            i_complete := match n with Pause | Hold => true | _ => i_complete c end;
                            i_failed := i_failed c; i_cancelled := true |} in
-              if mark_cancelled_raises e1 r then (put_i e1 c', m)
-              else mark_done (fin_i (note_cancel e1 r) n) m r
+              if mark_cancelled_raises (tk e1 m) r then (put_i e1 c', m)
+              else mark_done (fin_i (note_cancel_m e1 m r) n) m r
         end
     | CU n =>
         match find_u e n with
@@ -306,8 +311,8 @@ Section Cfg.
             else
               let c' := {| c_name := c_name c; c_id := c_id c; c_init := c_init c; c_started := c_started c; c_iter := c_iter c;
                            c_complete := c_complete c; c_cancelled := true |} in
-              if mark_cancelled_raises e r then (put_u e c', m)
-              else mark_done (fin_u (note_cancel e r) c) m r
+              if mark_cancelled_raises (tk e m) r then (put_u e c', m)
+              else mark_done (fin_u (note_cancel_m e m r) c) m r
         end
     end.
 
@@ -449,10 +454,10 @@ Section Cfg.
     match find_i e n with
     | Some c =>
         if i_cancelled c then
-          let '(e1, m1) := mark_done (fin_i e n) m r in (e1, m1, untracked e1 r)   (* finalize it now; mark_completed *)
+          let '(e1, m1) := mark_done (fin_i e n) m r in (e1, m1, untracked (tk e1 m1) r)   (* finalize it now; mark_completed *)
         else
         let '(e1, m1, failed, fin) := tick_icmd e m c in
-        if failed || fin then let '(e2, m2) := mark_done e1 m1 r in (e2, m2, untracked e2 r) else (e1, m1, false)
+        if failed || fin then let '(e2, m2) := mark_done e1 m1 r in (e2, m2, untracked (tk e2 m2) r) else (e1, m1, false)
     | None =>
         (* Pause / Unpause / Hold / Unhold requests are dropped once no run is active (the run they were made in has
            ended earlier in this tick) *)
@@ -467,10 +472,10 @@ Section Cfg.
                                end
                   | _ => e0
                   end in
-        if untracked e1 r then (e1, m, true)               (* mark_internal_command_started raises: created, never ticked *)
+        if untracked (tk e1 m) r then (e1, m, true)               (* mark_internal_command_started raises: created, never ticked *)
         else
         let '(e2, m2, failed, fin) := tick_icmd e1 m c in
-        if failed || fin then let '(e3, m3) := mark_done e2 m2 r in (e3, m3, untracked e3 r) else (e2, m2, false)
+        if failed || fin then let '(e3, m3) := mark_done e2 m2 r in (e3, m3, untracked (tk e3 m3) r) else (e2, m2, false)
     end.
 
   Definition overlapping (a b : nat) : bool :=
@@ -479,6 +484,9 @@ Section Cfg.
   Definition set_out (e : E) (i : nat) (v : Z) : E := set_io e (prev e) (upd_nth (outs e) i v) (hw e).
   Definition set_out_by (u : bool) (e : E) (i : nat) (v : Z) : E := emit (set_out e i v) (EOut u i v).
 
+  Definition inited (c : ucmd) : ucmd :=
+    {| c_name := c_name c; c_id := c_id c; c_init := true; c_started := c_started c; c_iter := c_iter c;
+       c_complete := c_complete c; c_cancelled := c_cancelled c |}.
   (* _execute_uod_command; returns whether it raised *)
   Definition exec_uod (e : E) (m : mgr) (r : request) (n : nat) : E * mgr * bool :=
     (* cancel any existing request with the same name, then any overlapping one *)
@@ -497,8 +505,9 @@ Section Cfg.
                               (set_cmds e2 (reg e2) (uods e2 ++ [c]), c)
                     end in
     if c_cancelled c then let '(e5, m5) := mark_done (fin_u e3 c) m2 r in (e5, m5, false) else
-    let e4 := if c_init c then e3 else emit e3 (EUInit n (c_id c)) in
-    if negb (c_started c) && untracked e4 r then
+    (* init_fn runs once; the instance remembers it *)
+    let e4 := if c_init c then e3 else put_u (emit e3 (EUInit n (c_id c))) (inited c) in
+    if negb (c_started c) && untracked (tk e4 m2) r then
       (* mark_uod_command_started raises; the local clean-up cancel()s the command, mark_cancelled raises as well (swallowed),
          so it is neither finalized nor is the request done *)
       (put_u e4 {| c_name := n; c_id := c_id c; c_init := true; c_started := false; c_iter := c_iter c; c_complete := false;
@@ -515,8 +524,8 @@ Section Cfg.
         (* local clean-up: cancel + finalize, then the exception propagates *)
         let c' := {| c_name := n; c_id := c_id c; c_init := true; c_started := true; c_iter := it; c_complete := false;
                      c_cancelled := true |} in
-        let '(e7, m7) := if mark_cancelled_raises e6 r then (put_u e6 c', m2)
-                         else mark_done (fin_u (put_u (note_cancel e6 r) c') c') m2 r in (e7, m7, true)
+        let '(e7, m7) := if mark_cancelled_raises (tk e6 m2) r then (put_u e6 c', m2)
+                         else mark_done (fin_u (put_u (note_cancel_m e6 m2 r) c') c') m2 r in (e7, m7, true)
       else
         let complete := Z.of_nat (u_dur (r_scr r)) <=? it in
         let c' := {| c_name := n; c_id := c_id c; c_init := true; c_started := true; c_iter := it; c_complete := complete;
